@@ -256,11 +256,14 @@ class BaseGeo(BaseTransform):
             self._style_kwargs = {}
             try:
                 self._style.update(style_kwargs)
-            except (AttributeError, ValueError) as e:
-                e.args = (
-                    f"{self!r} has been initialized with some invalid style arguments.\n"
-                    + str(e),
-                )
+            except BaseException as e:  # pylint: disable=broad-except
+                if isinstance(e, (AttributeError, ValueError)):
+                    e.args = (
+                        f"{self!r} has been initialized with some invalid style arguments.\n"
+                        + str(e),
+                    )
+                # keep the rejected arguments pending: every access reports them again
+                self._style_kwargs = style_kwargs
                 raise
         return self._style
 
